@@ -24,6 +24,7 @@ import (
 	"github.com/lidofinance/dc4bc/airgapped"
 	"github.com/lidofinance/dc4bc/client/api/dto"
 	"github.com/lidofinance/dc4bc/client/modules/keystore"
+	"github.com/lidofinance/dc4bc/client/services/node"
 	ctypes "github.com/lidofinance/dc4bc/client/types"
 	fsmtypes "github.com/lidofinance/dc4bc/fsm/types"
 	"github.com/lidofinance/dc4bc/fsm/types/requests"
@@ -39,7 +40,7 @@ type nodeStats struct {
 	Samples                                                []string
 	Notes                                                  []string
 	Scenarios                                              int
-	C08Compared, C08Resets, TwoRoundScenarios, C08InDealsWindow, ReinitProbes int
+	C08Compared, C08Resets, TwoRoundScenarios, C08InDealsWindow, ReinitProbes, Reinits int
 	CancelledRounds                                        int
 }
 
@@ -185,6 +186,16 @@ func opPayloadRender(op *ctypes.Operation) string {
 		var v responses.SigningPartialSignsParticipantInvitationsResponse
 		if dec(&v) {
 			return rResp(v)
+		}
+	}
+	if string(op.Type) == "reinit_dkg" {
+		var ops []ctypes.Operation
+		if dec(&ops) {
+			ts := make([]string, len(ops))
+			for i, o := range ops {
+				ts[i] = hs(string(o.Type))
+			}
+			return "reinitOps(" + strings.Join(ts, ";") + ")"
 		}
 	}
 	return "!payload " + hx(op.Payload)
@@ -738,6 +749,7 @@ func (r *nodeRun) scenario(outDir string, n, t int, twoRounds bool) {
 	}
 	r.c08Checks(c, obs, rounds)
 	r.resetObserved(c, obs)
+	r.reinitObserved(c, obs, round)
 }
 
 func mutClause(p string) string {
@@ -829,4 +841,96 @@ func (r *nodeRun) reinitProbes(c *cluster, obs *vnode, round string) {
 	}
 	probe("fresh id, inner messages of an existing round", "fresh-round-x", "fresh-round-x")
 	probe("envelope names an existing round, dkg_id fresh", round, "fresh-round-y")
+}
+
+
+// reinitObserved: the observed node, with an empty state database again, is re-initialised from a dump of the board by
+// the real procedure (GenerateReDKGMessage, in every other scenario GetAdaptedReDKG on a dump stripped of its
+// self-confirmations); the Lean model of reinitDKG gets the decoded dump with the oracles of every inner message.
+func (r *nodeRun) reinitObserved(c *cluster, obs *vnode, round string) {
+	if _, err := obs.fsmSvc.ResetFSMState(&dto.ResetStateDTO{NewStateDBDSN: filepath.Join(obs.dir, "state-reset-reinit")}); err != nil {
+		r.mon("harness: reset: " + err.Error())
+		return
+	}
+	r.emit("reset", "ok "+nodeRender(obs))
+	dump := c.boardMessages()
+	adapt := r.st.Scenarios%2 == 0
+	if adapt {
+		var stripped []storage.Message
+		for _, m := range dump {
+			if m.Event == "event_dkg_deal_confirm_received" && m.RecipientAddr == m.SenderAddr {
+				continue
+			}
+			stripped = append(stripped, m)
+		}
+		dump = stripped
+	}
+	newKeys := map[string][]byte{}
+	for _, nd := range c.nodes {
+		newKeys[nd.name] = nd.kp.Pub
+	}
+	re, err := ctypes.GenerateReDKGMessage(dump, newKeys)
+	if err != nil {
+		r.mon("harness: GenerateReDKGMessage: " + err.Error())
+		return
+	}
+	if adapt {
+		if re, err = node.GetAdaptedReDKG(re); err != nil {
+			r.mon("harness: GetAdaptedReDKG: " + err.Error())
+			return
+		}
+	}
+	payload, _ := json.Marshal(re)
+	now := time.Now()
+	var oldKeys [][]byte
+	for _, p := range re.Participants {
+		oldKeys = append(oldKeys, p.OldCommPubKey)
+	}
+	toks := []string{"reinit", hs(re.DKGID), fmt.Sprint(now.UnixNano()), fmt.Sprint(len(re.Participants))}
+	for _, p := range re.Participants {
+		toks = append(toks, hs(p.Name), hx(p.NewCommPubKey))
+	}
+	for _, m := range re.Messages {
+		patch := "0"
+		if len(m.Signature) == 0 && m.SenderAddr == m.RecipientAddr && m.Event == "event_dkg_deal_confirm_received" {
+			var dr requests.DKGProposalDealConfirmationRequest
+			if json.Unmarshal(m.Data, &dr) == nil && string(dr.Deal) == "self-confirm" {
+				patch = "1"
+			}
+		}
+		var valid []string
+		seen := map[string]bool{}
+		for _, k := range oldKeys {
+			if len(k) == ed25519.PublicKeySize && ed25519.Verify(k, m.Data, m.Signature) && !seen[string(k)] {
+				seen[string(k)] = true
+				valid = append(valid, hx(k))
+			}
+		}
+		sort.Strings(valid)
+		keysTok := "-"
+		if len(valid) > 0 {
+			keysTok = strings.Join(valid, ",")
+		}
+		toks = append(toks, "||", patch, hs(m.DkgRoundID), hs(m.Event), hs(m.SenderAddr), hs(m.RecipientAddr), fmt.Sprint(now.UnixNano()), keysTok)
+		if v, err := ctypes.FSMRequestFromMessage(m); err == nil {
+			toks = append(toks, "|", "arg")
+			toks = append(toks, reqToTokens(v)...)
+		}
+	}
+	msg := storage.Message{ID: "reinit", DkgRoundID: re.DKGID, Event: "reinit_dkg", Data: payload, SenderAddr: obs.name}
+	outcome := "ok"
+	func() {
+		defer func() {
+			if rec := recover(); rec != nil {
+				outcome = "panic"
+				r.mon(fmt.Sprintf("C18 never_panics: ProcessMessage panicked on a reinit message: %v", rec))
+			}
+		}()
+		if err := obs.svc.ProcessMessage(msg); err != nil {
+			outcome = "reject"
+		}
+	}()
+	r.emit(strings.Join(toks, " "), outcome+" "+nodeRender(obs))
+	r.st.Reinits++
+	r.st.OutcomeHist["reinit/"+outcome]++
 }
